@@ -237,9 +237,6 @@ func addSSZModel(P *Program) {
 			panic(runtimeErrorString("runtime error: invalid memory address or nil pointer dereference"))
 		}
 		arrT := fn.Signature.Results().At(0).Type()
-		if i.fault("ssz.HashTreeRoot") {
-			return tuple{zero(arrT), i.mkError("injected: hashing failed")}
-		}
 		hs := &hasherState{}
 		hh := iface{t: hasherType, v: nativeHandle{hs}}
 		f, ok := i.callMethodLookup(v, "HashTreeRootWith")
